@@ -2,6 +2,9 @@ import TflModel.Model.Dykstra
 import TflModel.Model.Linear
 import TflModel.Model.Kfl
 import TflModel.Model.PwlProj
+import TflModel.Model.PwlEval
+import TflModel.Model.Categorical
+import TflModel.Model.LatticeEval
 /-!
 # Multi-unit models of the reductions and reshapes of the constraint code (C09)
 
@@ -349,5 +352,49 @@ def unitKernel (dims : Nat) (k : Flat) (u : Nat) : Flat := fun i cl t => k i (u 
 
 /-- flat table `(i, col, t)` row-major as a list, for the driver -/
 def Flat.ofVals (cols T : Nat) (vs : List Rat) : Flat := fun i cl t => getR vs ((i * cols + cl) * T + t)
+
+/-! ## column-wise multi-unit models of the remaining constraints and of the forward passes
+
+For these the multi-unit model is DEFINED column by column (unit `u` of the result is the one-unit model
+of `Model/PwlProj.lean`, `Model/Linear.lean`, `Model/Categorical.lean`, … applied to column `u`), so
+"column `u` of the multi-unit result = the one-unit result of column `u`" holds by definition
+(`Props/C09Units.lean` states it). What is NOT definitional — that the REAL multi-unit call
+(`reduce_sum(axis=0)` stages, the units-dependent reshape of `_project_convexity`,
+`tf.norm(axis=0)`, the per-column topological sweeps) equals this column-wise map — is checked by the
+correspondence suites `un.pwlfull`, `un.linfull`, `un.catfull` of `harness/props/c09.py` on kernels
+whose columns differ in magnitude by factors 100, and by the real-vs-real suites. -/
+
+/-- `PWLCalibrationConstraints(...)(K)` for a `(k, units)` kernel: bias row and heights matrix -/
+def pwlConstraintU (mono conv : Int) (omin omax : Option Rat) (clampMin clampMax : Bool) (lengths : List Rat)
+    (iters units : Nat) (bias : List Rat) (H : Mat) : List (Except Err (Rat × List Rat)) :=
+  (List.range units).map (fun u =>
+    Tfl.PwlProj.constraintsCall mono conv omin omax clampMin clampMax lengths iters (getR bias u) (col H u))
+
+/-- `LinearConstraints(...)(K)` for a `(num_input_dims, units)` kernel -/
+def linearProjectU (monos : List Int) (monoDom rangeDom : Tfl.Poset.Pairs) (los his : List (Option Rat))
+    (ord : Tfl.Linear.NormOrd) (units : Nat) (m : Mat) : List (Except Err (List Rat)) :=
+  (List.range units).map (fun u => Tfl.Linear.project monos monoDom rangeDom los his ord (col m u))
+
+/-- `CategoricalCalibrationConstraints(...)(K)` for a `(num_buckets, units)` kernel -/
+def categoricalProjectU (lo hi : Option Rat) (cs : Tfl.Poset.Pairs) (units : Nat) (m : Mat) :
+    List (Except Err (List Rat)) :=
+  (List.range units).map (fun u => Tfl.Categorical.project lo hi cs (col m u))
+
+/-- `Linear.call` with `units > 1` on one example (`bias` = the `(units)` bias vector when `use_bias`) -/
+def linearCallU (units : Nat) (K : Mat) (bias : Option (List Rat)) (los his : List (Option Rat)) (x : List Rat) :
+    List Rat :=
+  (List.range units).map (fun u => Tfl.Linear.call (col K u) (bias.map (fun b => getR b u)) los his x)
+
+/-- `CategoricalCalibration.call` with `units > 1` on one example: one input broadcast to every unit or
+one input per unit -/
+def categoricalCallU (units : Nat) (K : Mat) (default : Option Int) (xs : List Int) : List Rat :=
+  (List.range units).map (fun u =>
+    Tfl.Categorical.call (col K u) default (xs.getD (if xs.length = 1 then 0 else u) 0))
+
+/-- `Lattice.call` (hypercube interpolation) with `units > 1` on one example `(units, dims)`: unit `u`
+interpolates ITS kernel column at ITS input row -/
+def latticeCallU (form : Tfl.LatticeEval.InputForm) (clipOn : Bool) (sizes : List Nat) (units : Nat) (K : Mat)
+    (xs : List (List Rat)) : List (Except Err Rat) :=
+  (List.range units).map (fun u => Tfl.LatticeEval.evalHypercube form clipOn sizes (col K u) (xs.getD u []))
 
 end Tfl.Units
